@@ -10,7 +10,7 @@ RULE = ("case = (frame of 1..64 bytes incl. every CAN FD length and odd lengths,
         "Every decode/encode is observed on objects with a history: the first use of a frame is made with its signals somewhere else "
         "(then moved into place by assignment), each call is repeated, and once more after another detour; an encode request is also "
         "made with one values dict used for several selector values. A result that depends on that history is a failure. "
-        "Non-trivial = distinct case whose payload is not constant or whose length differs from the declared one.")
+        "One multiplexer in four is signed; 30 % of the frames carry signals with physical scaling, limits and start values; container frames with header signals and PDUs are checked against the length rule on the implementation itself (unpack with the opt-in equals unpack of the padded / cut payload). Non-trivial = distinct case whose payload is not constant or whose length differs from the declared one.")
 PARTIAL = ["struct.unpack('>f'/'>d') (IEEE-754 conversion) is trusted: float signals are compared as bit patterns, NaN as a class",
            "PDU-container frames are modelled up to the length check only"]
 ASSUMPTIONS = ["signal names unique within a frame", "placements inside the frame (start+size <= 8*len); Python's negative-index "
@@ -26,7 +26,8 @@ def gen_frame(rng, kind="plain"):
     if kind == "mux":
         w = rng.randint(1, min(8, 8 * n))
         mstart = rng.randint(0, 8 * n - w)
-        mux = F.sigdesc("mx", mstart, w, rng.random() < 0.5, False, False, True)
+        # (a multiplexer is a signal like any other: it may be signed)
+        mux = F.sigdesc("mx", mstart, w, rng.random() < 0.5, rng.random() < 0.25, False, True)
         for d in sigs:
             if rng.random() < 0.6:
                 d[7] = rng.randrange(0, 1 << w)
@@ -34,6 +35,13 @@ def gen_frame(rng, kind="plain"):
         fd["sigs"] = [mux] + sigs
     elif kind == "container":
         fd["ct"] = True
+        if rng.random() < 0.6:
+            # a container with header signals and PDUs, and a payload that holds PDU headers (id 10 / 11, length 2)
+            fd["ctfull"] = True
+            fd["size"] = rng.choice([8, 12, 12, 16])
+            fd["sigs"] = []
+    if rng.random() < 0.3:
+        fd["sc"] = True          # signals with physical scaling, limits and start values (no business of the raw codec)
     return fd
 
 
@@ -57,6 +65,8 @@ def gen(rng, tier, shard, nshards):
             fd = gen_frame(rng, kind)
             ln = rng.choice([rng.randint(0, 2 * fd["size"]), fd["size"] - 1, fd["size"] + 1, fd["size"], 0, 2 * fd["size"]])
             data = F.rand_payload(rng, ln) if ln else []
+            if fd.get("ctfull"):
+                data = ([0, 0, 10, 2, rng.randrange(256), rng.randrange(256), 0, 0, 11, 2, rng.randrange(256), rng.randrange(256)] + [0] * 64)[:ln]
             api = rng.choice(["unpack", "unpack", "unpack", "decode", "mdecode"])
             if kind == "container" and api == "mdecode":
                 api = "decode"
